@@ -76,7 +76,12 @@ class JSExec(GoExec, SpecMixin, CallsMixin):
             self.oblige(st, 'exact@%s' % line, z3.And(v >= -TWO53, v <= TWO53), src=line)
         return v
 
+    def trunc_real(self, v):
+        return z3.If(v >= 0, z3.ToInt(v), -z3.ToInt(-v))
+
     def toint32(self, v):
+        if isinstance(v, z3.ExprRef) and z3.is_real(v):
+            v = self.trunc_real(v)
         if isinstance(v, MaybeNaN):
             return self.toint32(z3.If(v.nan, self.num(0), v.val))
         if self.mode == 'bv':
@@ -87,6 +92,8 @@ class JSExec(GoExec, SpecMixin, CallsMixin):
         return self.dm(v + TWO31, TWO32)[1] - TWO31
 
     def touint32(self, v):
+        if isinstance(v, z3.ExprRef) and z3.is_real(v):
+            v = self.trunc_real(v)
         if isinstance(v, MaybeNaN):
             return self.touint32(z3.If(v.nan, self.num(0), v.val))
         if self.mode == 'bv':
@@ -119,6 +126,8 @@ class JSExec(GoExec, SpecMixin, CallsMixin):
         return q, r
 
     def u32(self, v):
+        if isinstance(v, z3.ExprRef) and z3.is_real(v):
+            return self.touint32(v)
         """ToUint32 of an Int term; int32 results of << and | remember the unsigned value they were wrapped from"""
         if isinstance(v, z3.ExprRef) and v.get_id() in self.u32view:
             return self.u32view[v.get_id()]
@@ -558,7 +567,22 @@ class JSExec(GoExec, SpecMixin, CallsMixin):
                 d = bc.as_long()
                 if name == 'floor': return a / d
                 if name == 'ceil': return -((-a) / d)
+        if name in ('floor', 'ceil', 'trunc') and args[0]['type'] == 'BinaryExpression' and args[0]['operator'] == '/':
+            a, b = self.ev(st, args[0]['left']), self.ev(st, args[0]['right'])
+            bc = z3.simplify(b)
+            if z3.is_int_value(bc) and bc.as_long() > 0 and (bc.as_long() & (bc.as_long() - 1)) == 0 and isinstance(a, z3.ExprRef):
+                # division by a power of two is exact in binary floating point (no rounding short of underflow)
+                q = z3.ToReal(a) / bc.as_long() if not z3.is_real(a) else a / bc.as_long()
+                if name == 'floor': return z3.ToInt(q)
+                if name == 'ceil': return -z3.ToInt(-q)
+                return self.trunc_real(q)
         vals = [self.ev(st, a) for a in args]
+        if name in ('floor', 'ceil', 'trunc', 'round') and isinstance(vals[0], z3.ExprRef) and z3.is_real(vals[0]):
+            x = vals[0]
+            if name == 'floor': return z3.ToInt(x)
+            if name == 'ceil': return -z3.ToInt(-x)
+            if name == 'trunc': return self.trunc_real(x)
+            raise Unsupported('Math.round on a non-integer')
         if name in ('floor', 'ceil', 'trunc', 'round'):
             return vals[0]        # integers are fixed points
         if name == 'min': return z3.If(vals[0] <= vals[1], vals[0], vals[1])
@@ -812,6 +836,10 @@ class JSExec(GoExec, SpecMixin, CallsMixin):
             return v
         if ty == 'bool':
             return fresh(name, B)
+        if ty == 'real':     # a finite double that need not be an integer (modelled as a real; only exact operations are allowed on it)
+            v = fresh(name, z3.RealSort())
+            st.pc.append(z3.And(v >= -TWO53 * 2048, v <= TWO53 * 2048))
+            return v
         if ty == 'str':      # a Go string: one byte per code unit
             arr = fresh(name + '.arr', ArrII); n = fresh(name + '.len'); k = fresh('k!wf')
             st.pc += [n >= 0, n <= MAXLEN, z3.ForAll([k], z3.And(z3.Select(arr, k) >= 0, z3.Select(arr, k) <= 255))]
